@@ -198,19 +198,25 @@ func checkOutputsAreWithinRepository(target *model.Target) (errs []error) {
 	return
 }
 
+// workspaceRelativePath resolves relPath against the package directory inside the workspace
+// and returns the result relative to the workspace root.
+// If the resolved path is within absWorkspace, the computed relative path will NOT start with ".."
+// (even if the user-supplied relative path started with ".."): it is the canonical
+// spelling of that location, whichever way relPath names it.
+func workspaceRelativePath(absWorkspace, packagePath, relPath string) (string, error) {
+	absOutput, err := filepath.Abs(filepath.Join(absWorkspace, packagePath, relPath))
+	if err != nil {
+		return "", err
+	}
+
+	return filepath.Rel(absWorkspace, absOutput)
+}
+
 // isWithinWorkspace checks whether the resolved path (when joined with a starting directory)
 // remains within the workspace root. The relative path may start with "..", but once resolved,
 // it must still be inside the workspace.
 func isWithinWorkspace(absWorkspace, packagePath, relPath string) (bool, error) {
-	absOutput, err := filepath.Abs(filepath.Join(absWorkspace, packagePath, relPath))
-	if err != nil {
-		return false, err
-	}
-
-	// Compute the relative path from the workspace to the target.
-	// If absTarget is within absWorkspace, the computed relative path will NOT start with ".."
-	// (even if the user-supplied relative path started with "..").
-	rel, err := filepath.Rel(absWorkspace, absOutput)
+	rel, err := workspaceRelativePath(absWorkspace, packagePath, relPath)
 	if err != nil {
 		return false, err
 	}
